@@ -1,4 +1,8 @@
 import TexcraftModel.Lemmas.C13Main
+import TexcraftModel.Lemmas.C13Trie
+import TexcraftModel.Lemmas.C13Equiv
+import TexcraftModel.Lemmas.C13Plain
+import TexcraftModel.Lemmas.C13Text
 
 /-!
 # C13 — hyphenation positions are exactly Liang's; exceptions always win; case-insensitive
@@ -145,5 +149,221 @@ example : calculateIndices (build exPats exExcs) asciiLc ['a', 'B'] = some [1] :
 /-- A zero run of 17 (one overflow byte) decodes to its digits. -/
 example : decodeOps (patOps ("aaaaaaaaaaaaaaaaa3b".toList)).1
     = [0,0,0,0,0,0,0,0,0,0,0,0,0,0,0,0,0,3] := by decide
+
+/-! ## The trie as coded refines the prefix map
+
+`Model/C13Trie.lean` transcribes `mod trie` literally (numbered vertices, one edge map,
+`next_vertex`, root `u32::MAX`) and `Hyphenator` on top of it; this is what the driver
+executes. Hypothesis everywhere: fewer than `u32::MAX` `next` calls in total (`edgeCount`),
+beyond which `next_vertex.0 + 1` overflows in the Rust code. -/
+
+/-- For every insertion sequence (any patterns, any exceptions): following a non-empty path
+of edges through the coded trie succeeds exactly when the prefix map has the path as a
+prefix, and then carries exactly the prefix map's value; the op streams are identical. -/
+theorem trie_refines_prefix_map (ps es : List (List Char)) (hlt : edgeCount ps es < rootV) :
+    (cBuild ps es).data = (build ps es).data ∧
+    ∀ π, π ≠ [] →
+      (cWalk (cBuild ps es).trie π).map (·.2)
+        = if hasPrefix (build ps es).trie π = true then some (lookup (build ps es).trie π)
+          else none := by
+  have r := rel_build ps es hlt
+  refine ⟨r.data, ?_⟩
+  intro π hπ
+  have := r.sim π hπ
+  rw [isPrefixOf_nil π hπ, Bool.or_false] at this
+  exact this
+
+/-- Distinct paths lead to distinct vertices, vertex numbers stay below the counter and
+below the root: the numbering is a faithful naming of paths. -/
+theorem trie_numbering_injective (ps es : List (List Char)) (hlt : edgeCount ps es < rootV)
+    (π1 π2 : List Edge) (u : Nat) (x1 x2 : Option Nat)
+    (h1 : cWalk (cBuild ps es).trie π1 = some (u, x1))
+    (h2 : cWalk (cBuild ps es).trie π2 = some (u, x2)) : π1 = π2 :=
+  (rel_build ps es hlt).good.inj π1 π2 u x1 x2 h1 h2
+
+/-- The coded hyphenator computes, for every word (letters or not), exactly what the
+prefix-map model computes — panic branch included. -/
+theorem coded_scores_eq (ps es : List (List Char)) (hlt : edgeCount ps es < rootV)
+    (lc : Char → Option Char) (w : List Char) :
+    cAggregateScores (cBuild ps es) lc w = aggregateScores (build ps es) lc w :=
+  cAggregateScores_eq _ _ (rel_build ps es hlt) lc w
+
+/-- `index_bounds` for the code as written. -/
+theorem coded_index_bounds (ps es : List (List Char)) (hlt : edgeCount ps es < rootV)
+    (lc : Char → Option Char) (w : List Char) :
+    ∃ s, cAggregateScores (cBuild ps es) lc w = some s ∧ s.length = w.length := by
+  rw [coded_scores_eq ps es hlt]; exact index_bounds ps es lc w
+
+/-- The property for the code as written (coded trie, coded op stream). -/
+theorem coded_hyphenation_spec (ps es : List (List Char)) (hlt : edgeCount ps es < rootV)
+    (lc : Char → Option Char) (w lw : List Char)
+    (hwf : ∀ p ∈ ps, wellFormed p = true)
+    (hnd : ((ps.map parsePat).map Pat.key).Nodup)
+    (hl : lowerWord lc w = some lw) :
+    cCalculateIndices (cBuild ps es) lc w = some (specIndices ps es lw) := by
+  unfold cCalculateIndices
+  rw [coded_scores_eq ps es hlt]
+  exact hyphenation_spec ps es lc w lw hwf hnd hl
+
+/-- Exceptions win, for the code as written, whatever the patterns. -/
+theorem coded_exceptions_win (ps es : List (List Char)) (hlt : edgeCount ps es < rootV)
+    (lc : Char → Option Char) (w lw e : List Char)
+    (hl : lowerWord lc w = some lw) (hex : findException es lw = some e) :
+    cCalculateIndices (cBuild ps es) lc w = some (listed e) := by
+  unfold cCalculateIndices
+  rw [coded_scores_eq ps es hlt]
+  exact exceptions_win ps es lc w lw e hl hex
+
+example : edgeCount exPats exExcs < rootV := by decide
+example : cCalculateIndices (cBuild exPats exExcs) asciiLc ['A', 'b', 'C'] = some [2] := by decide
+
+/-! ## Why three one-site changes of the code cannot change any hyphenation -/
+
+/-- (mutant 03) Zero-run bytes before a terminator — `15·16`, `14·16`, any count — are
+invisible: position by position the stream reads like the part before them. -/
+theorem trailing_zero_run_invisible (ops : List Nat) (hnt : NonTerm ops) (k b z term : Nat)
+    (hb : b % 16 = 0) (hterm : term = 10 ∨ term = 11) (j : Nat) :
+    (decodeOps (ops ++ (List.replicate k b ++ [term + z * 16]))).getD j 0
+      = (decodeOps ops).getD j 0 :=
+  terminal_run_invisible ops hnt k b z term hb hterm j
+
+/-- … and for a word of letters the scores depend on a hyphenator only through these
+position-by-position readings of the streams stored at its vertices. -/
+theorem scores_depend_only_on_digits (h1 h2 : Hyph) (hB1 : Bounded h1) (hB2 : Bounded h2)
+    (hv : ∀ π j, (val h1 π).getD j 0 = (val h2 π).getD j 0)
+    (lc : Char → Option Char) (w lw : List Char) (hl : lowerWord lc w = some lw) :
+    aggregateScores h1 lc w = aggregateScores h2 lc w :=
+  scores_depend_on_digits h1 h2 hB1 hB2 hv lc w lw hl
+
+/-- (mutant 16) An exception entry whose letters are not the word — in particular the empty
+entry that a blank line would insert, for any non-empty word — changes nothing. -/
+theorem irrelevant_exception (ps es1 es2 : List (List Char)) (e0 : List Char)
+    (lc : Char → Option Char) (w lw : List Char)
+    (hwf : ∀ p ∈ ps, wellFormed p = true)
+    (hnd : ((ps.map parsePat).map Pat.key).Nodup)
+    (hl : lowerWord lc w = some lw) (hne : stripHyphens e0 ≠ lw) :
+    calculateIndices (build ps (es1 ++ e0 :: es2)) lc w
+      = calculateIndices (build ps (es1 ++ es2)) lc w := by
+  rw [hyphenation_spec ps _ lc w lw hwf hnd hl, hyphenation_spec ps _ lc w lw hwf hnd hl]
+  simp only [specIndices, findException_insert es1 es2 e0 lw hne]
+
+/-- (mutant 33) If no pattern has the shape `.w.` of an exception's word, inserting the
+exceptions before the patterns gives the same scores. -/
+theorem insertion_order_irrelevant (ps es : List (List Char))
+    (hdis : ∀ p ∈ ps, ∀ e ∈ es, (parsePat p).key ≠ enc true (stripHyphens e) true)
+    (lc : Char → Option Char) (w lw : List Char) (hl : lowerWord lc w = some lw) :
+    aggregateScores (loadPatterns (insertExceptions {} es) ps) lc w
+      = aggregateScores (build ps es) lc w :=
+  order_irrelevant ps es hdis lc w lw hl
+
+/-! ## Plain TeX's patterns (`Tables/C13Plain.lean` = the shipped data files) -/
+
+/-- The hypotheses of the property theorems hold for the shipped pattern set: every one of
+the 4447 patterns is well-formed, no two have the same letters and anchors, and the trie
+needs far fewer than 2^32 vertices. -/
+theorem plain_tex_hypotheses :
+    (∀ p ∈ plainPatterns, wellFormed p = true) ∧
+    ((plainPatterns.map parsePat).map Pat.key).Nodup ∧
+    edgeCount plainPatterns plainExceptions < rootV := by
+  refine ⟨?_, nodup_keys_of_sorted _ plain_sorted, plain_edges⟩
+  have := plain_wellFormed
+  rw [List.all_eq_true] at this
+  exact this
+
+/-- `Hyphenator::plain_tex_en_us()`: for every lower-case map and every word of letters the
+hyphen positions are the specification's — no hypothesis left. -/
+theorem plain_tex_spec (lc : Char → Option Char) (w lw : List Char)
+    (hl : lowerWord lc w = some lw) :
+    cCalculateIndices (cBuild plainPatterns plainExceptions) lc w
+      = some (specIndices plainPatterns plainExceptions lw) :=
+  coded_hyphenation_spec _ _ plain_tex_hypotheses.2.2 lc w lw plain_tex_hypotheses.1
+    plain_tex_hypotheses.2.1 hl
+
+/-- For the shipped data the order of `load_patterns` / `insert_exceptions` in
+`plain_tex_en_us` does not matter (no pattern is `.w.` for an exception word `w`). -/
+theorem plain_tex_order_irrelevant (lc : Char → Option Char) (w lw : List Char)
+    (hl : lowerWord lc w = some lw) :
+    aggregateScores (loadPatterns (insertExceptions {} plainExceptions) plainPatterns) lc w
+      = aggregateScores (build plainPatterns plainExceptions) lc w :=
+  insertion_order_irrelevant _ _ plain_disjoint lc w lw hl
+
+/-! ## The text front end (`load_patterns(&str)`, `insert_exceptions(&str)`) -/
+
+/-- Parsing the text of a pattern list yields that list, whatever white space (any Unicode
+`White_Space`, any amount ≥ 1) separates the patterns and precedes the first one. -/
+theorem patterns_text_parses (lead : List Char) (items : List (List Char × Char × List Char))
+    (hlead : AllWs lead) (h : TokensOk items) :
+    splitWs (lead ++ tokensText items) [] = items.map (·.1) := by
+  rw [splitWs_allWs lead hlead, splitWs_tokensText items h]
+
+/-- The result does not depend on how the text is cut into `load_patterns` calls: two calls
+are one call on the texts joined by a white-space character … -/
+theorem load_split_independent (h : CHyph) (t1 t2 : List Char) (w : Char) (hw : isWs w = true) :
+    cLoadText (cLoadText h t1) t2 = cLoadText h (t1 ++ w :: t2) :=
+  cLoadText_split h t1 t2 w hw
+
+/-- … and any sequence of calls loads the concatenation of the parsed lists. -/
+theorem load_calls_concat (texts : List (List Char)) (h : CHyph) :
+    texts.foldl cLoadText h = (texts.flatMap (fun t => splitWs t [])).foldl cLoadPattern h :=
+  foldl_cLoadText texts h
+
+/-- Lines of padding + entry + padding (entry possibly absent): `insert_exceptions` sees the
+entries in order; blank lines, padding and `\r` vanish. -/
+theorem exceptions_text_parses (ls : List (List Char × List Char × List Char))
+    (h : ∀ x ∈ ls, AllWs x.1 ∧ Trimmed x.2.1 ∧ AllWs x.2.2 ∧ NoNl (x.1 ++ x.2.1 ++ x.2.2)) :
+    exceptionLines (linesText (ls.map (fun x => x.1 ++ x.2.1 ++ x.2.2)))
+      = (ls.map (·.2.1)).filter (fun l => !l.isEmpty) :=
+  exceptionLines_linesText ls h
+
+/-- The property from text to positions: load any texts, insert an exception text, ask for a
+word of letters — the answer is the specification's for the parsed lists. -/
+theorem text_hyphenation_spec (ptexts : List (List Char)) (etext : List Char)
+    (lc : Char → Option Char) (w lw : List Char)
+    (hlt : edgeCount (ptexts.flatMap (fun t => splitWs t [])) (exceptionLines etext) < rootV)
+    (hwf : ∀ p ∈ ptexts.flatMap (fun t => splitWs t []), wellFormed p = true)
+    (hnd : (((ptexts.flatMap (fun t => splitWs t [])).map parsePat).map Pat.key).Nodup)
+    (hl : lowerWord lc w = some lw) :
+    cCalculateIndices (cInsertExceptionsText (ptexts.foldl cLoadText {}) etext) lc w
+      = some (specIndices (ptexts.flatMap (fun t => splitWs t [])) (exceptionLines etext) lw) := by
+  have : cInsertExceptionsText (ptexts.foldl cLoadText {}) etext
+      = cBuild (ptexts.flatMap (fun t => splitWs t [])) (exceptionLines etext) := by
+    rw [foldl_cLoadText]; rfl
+  rw [this]
+  exact coded_hyphenation_spec _ _ hlt lc w lw hwf hnd hl
+
+example : splitWs "  a1b\n.b2c.\t abc3 ".toList [] = ["a1b".toList, ".b2c.".toList, "abc3".toList] := by
+  decide
+example : exceptionLines " a-b \r\n\n\tbc-c".toList = ["a-b".toList, "bc-c".toList] := by decide
+
+/-! ## Histories: one hyphenator through loads, inserts and queries -/
+
+/-- The answer to a query is a function of the hyphenator, and queries leave the hyphenator
+alone: after any history the state is the one the loads and inserts alone produce, so no
+earlier query can influence a later answer. -/
+theorem queries_do_not_matter (ops : List Op) (h : CHyph) :
+    ops.foldl (applyOpG true) h = (ops.filter (fun o => !o.isQuery)).foldl (applyOpG true) h :=
+  foldl_ignores_queries true ops h
+
+/-- Every history whose `load_patterns` calls precede its exception inserts — queries anywhere,
+`insert_exception` and `insert_exceptions` mixed, e.g. hyphenate a word, declare an exception
+for it, hyphenate it again — answers a query with the specification for the patterns and
+exceptions loaded up to that point. -/
+theorem history_spec (A B : List Op) (hA : ∀ o ∈ A, o.isExc = false)
+    (hB : ∀ o ∈ B, o.isLoad = false)
+    (lc : Char → Option Char) (w lw : List Char)
+    (hlt : edgeCount (patsOf (A ++ B)) (excsOf (A ++ B)) < rootV)
+    (hwf : ∀ p ∈ patsOf (A ++ B), wellFormed p = true)
+    (hnd : (((patsOf (A ++ B)).map parsePat).map Pat.key).Nodup)
+    (hl : lowerWord lc w = some lw) :
+    cCalculateIndices ((A ++ B).foldl (applyOpG true) {}) lc w
+      = some (specIndices (patsOf (A ++ B)) (excsOf (A ++ B)) lw) := by
+  rw [history_state A B hA hB]
+  exact coded_hyphenation_spec _ _ hlt lc w lw hwf hnd hl
+
+/-- … in particular the exception declared after the word was first hyphenated wins. -/
+example :
+    cCalculateIndices (([Op.loadText "a1b 1c".toList, Op.query "abab".toList] ++
+        [Op.exc "ab-ab".toList, Op.query "ABAB".toList]).foldl (applyOpG true) {}) asciiLc
+      "Abab".toList = some [2] := by decide
 
 end C13
